@@ -4,11 +4,13 @@ import (
 	"bufio"
 	"context"
 	"encoding/hex"
+	"encoding/json"
 	"fmt"
 	"sort"
 	"strings"
 	"unicode/utf8"
 
+	"github.com/jackc/pgtype"
 	"github.com/jackc/pgx/v5"
 	"github.com/specterops/dawgs/cypher/frontend"
 	"github.com/specterops/dawgs/cypher/models/cypher"
@@ -83,6 +85,30 @@ var c04Templates = []c04Tmpl{
 	{"expansion.terminal", "literal", "lit", "MATCH (s:NodeKind1)-[:EdgeKind1*1..]->(e:NodeKind2) WHERE e.name = § RETURN e"},
 	{"aggregate_traversal.predicate", "literal", "lit", "MATCH (n:NodeKind1) WHERE n.name = § MATCH (n)-[:EdgeKind1*1..]->(c:NodeKind2) WITH n, count(c) AS k RETURN n ORDER BY k DESC LIMIT 5"},
 	{"count_fast_path.predicate", "literal", "lit", "MATCH (n:NodeKind1) WHERE n.name = § RETURN count(n) AS c"},
+	// ---- every literal TYPE the formatter has a branch for: interval (formatLiteral CastType Interval), date/time
+	// constructors (type cast written after the constant), lists of strings (ArrayLiteral of literals)
+	{"interval.duration_sub", "literal.interval", "lit", "MATCH (s) WHERE s.created_at = date() - duration(§) RETURN s"},
+	{"interval.duration_add", "literal.interval", "lit", "MATCH (s) WHERE s.created_at = datetime() + duration(§) RETURN s"},
+	{"interval.duration_return", "literal.interval", "lit", "MATCH (s) RETURN s.created_at + duration(§) AS x"},
+	{"interval.duration_set", "literal.interval", "lit", "MATCH (s) SET s.expires = localdatetime() + duration(§) RETURN s"},
+	{"temporal.date", "literal.temporal", "lit", "MATCH (s) WHERE s.created_at = date(§) RETURN s"},
+	{"temporal.datetime", "literal.temporal", "lit", "MATCH (s) WHERE s.created_at = datetime(§) RETURN s"},
+	{"temporal.localtime", "literal.temporal", "lit", "MATCH (s) WHERE s.created_at = localtime(§) RETURN s"},
+	{"temporal.localdatetime", "literal.temporal", "lit", "MATCH (s) WHERE s.created_at = localdatetime(§) RETURN s"},
+	{"temporal.return", "literal.temporal", "lit", "RETURN datetime(§) AS x"},
+	{"list.return", "literal.list", "lit", "RETURN [§, 'b'] AS x"},
+	{"list.single_in", "literal.list", "lit", "MATCH (n) WHERE n.name IN [§] RETURN n"},
+	{"list.set", "literal.list", "lit", "MATCH (n) SET n.tags = [§, 'b'] RETURN n"},
+	{"list.create", "literal.list", "lit", "CREATE (n:NodeKind1 {tags: [§, 'b']}) RETURN n"},
+	{"list.pattern_map", "literal.list", "lit", "MATCH (n {tags: [§, 'b']}) RETURN n"},
+	{"list.coalesce", "literal.list", "lit", "MATCH (n) WHERE § IN coalesce(n.tags, [§, 'zz']) RETURN n"},
+	{"list.harness_pair", "harness.literal_sql", "lit", "MATCH p = allShortestPaths((s:NodeKind1)-[*..]->(e)) WHERE e.name IN [§, 'zz'] AND s.name = 'x' RETURN p"},
+	{"list.nested", "literal.list", "lit", "RETURN [[§], ['b']] AS x"},
+	// nested map literals: the translator rejects cypher.MapLiteral outside a pattern/CREATE property map today (both twins
+	// are rejected, reported as benign-rejected); the templates stay so the position is exercised the day it is supported
+	{"map.nested_create", "literal.map", "lit", "CREATE (n:NodeKind1 {a: {b: §}}) RETURN n"},
+	{"map.return", "literal.map", "lit", "MATCH (n) RETURN {k: §, inner: {x: §}} AS x"},
+	{"interval.harness_primer", "harness.bound_sql", "lit", "MATCH p = allShortestPaths((s:NodeKind1)-[*..]->(e:NodeKind2)) WHERE s.created_at > datetime() - duration(§) RETURN p"},
 	// ---- text reaching the SQL passed to the traversal (shortest path) functions
 	{"harness.primer", "harness.bound_sql", "lit", "MATCH p = allShortestPaths((s:NodeKind1)-[*..]->({name: §})) RETURN p"},
 	{"harness.primer_sp.like", "harness.bound_sql", "lit", "MATCH p = shortestPath((t:NodeKind1)<-[:EdgeKind1|EdgeKind2*1..]-(s:NodeKind2)) WHERE t.system_tags CONTAINS § AND s <> t RETURN p LIMIT 10"},
@@ -149,6 +175,9 @@ var c04Templates = []c04Tmpl{
 	{"param.in_list", "parameter.bound", "paramlist", "MATCH (n) WHERE n.name IN $pv RETURN n"},
 	{"param.pattern_map", "parameter.bound", "param", "MATCH (n {name: $pv}) RETURN n"},
 	{"param.expansion", "parameter.bound", "param", "MATCH (s:NodeKind1)-[:EdgeKind1*1..]->(e:NodeKind2) WHERE s.name = $pv RETURN e"},
+	{"param.map_pattern", "parameter.bound", "parammap", "MATCH (n $pv) RETURN n"},
+	{"param.map_create", "parameter.bound", "parammap", "CREATE (n:NodeKind1 $pv) RETURN n"},
+	{"param.map_key", "parameter.bound", "parammapkey", "MATCH (n $pv) RETURN n"},
 	{"param.harness_primer", "parameter.materialized", "param", "MATCH p = allShortestPaths((s:NodeKind1)-[*..]->({name: $pv})) RETURN p"},
 	{"param.harness_pair", "parameter.materialized", "param", "MATCH p = allShortestPaths((s:NodeKind1)-[*..]->(e)) WHERE e.name = $pv AND s.name = 'x' RETURN p"},
 	{"param.harness_sp", "parameter.materialized", "param", "MATCH p = shortestPath((s:NodeKind1)-[:EdgeKind1*1..]->(d:NodeKind1)) WHERE s.name = $pv AND d.name = 'dst' RETURN p"},
@@ -170,7 +199,7 @@ func c04Fixed() []string {
 		"'", "''", "'''", "\\", "\\\\", "\\'", "'\\", "a'b", "it's", "\"", "\"\"", "a\"b", "`", "``", "a`b",
 		"--", "'--", "' --", "/*", "*/", "/* */", "'/*", "*/'", "$$", "$tag$", "$tag$x$tag$", "'$$", "$1", "@name", "@pi0", "'@pi0",
 		";", "';", "'; drop table node; --", "x; drop table node; --", "') or 1=1 --", "' or ''='", "\\'; drop table node; --",
-		"\n", "\r", "\r\n", "'\n'", "a\nb", "'\n", "\n'", "-- \n", "\t", "\x0b", "\x0c", "\x08", "\x1b", "\x7f", "\x01\x02\x03\x1f",
+		"\n", "\r", "\r\n", "'\n'", "a\nb", "a\rb", "x\rdelete from node; --", "'\r'", "\r--", "\r;", "\r\r", "x'\rdelete from node; --", "'\n", "\n'", "-- \n", "\t", "\x0b", "\x0c", "\x08", "\x1b", "\x7f", "\x01\x02\x03\x1f",
 		"\u0085", "\u00a0", "\u2028", "\u2029", "\ufeff", "\u00e9", "\u65e5\u672c\u8a9e", "\U0001f600", "\U0010ffff", "a\u0301", "x\U0001f600'\U0001f600",
 		"%", "_", "%'%", "e'", "E'\\''", "x'", "b'", "n'", "U&'", "::text", "'::text", ")", "(", "))", "]", "[", ",", ".", ":", "?", "->", "->>", "'->>'",
 		"\\u0041", "\\n", "\\x", "%s", "%!v", "{", "}", "$", "${", "null", "NULL", "true", "select", "Select", "UserCount", "a b", " ", "  ", "' '", " '",
@@ -356,6 +385,23 @@ func c04Params(p map[string]any) string {
 				b.WriteString(" " + jsonQuote(e))
 			}
 			b.WriteString(")")
+		case pgtype.JSONB:
+			var decoded any
+			if v.Status == pgtype.Present && json.Unmarshal(v.Bytes, &decoded) == nil {
+				b.WriteString("(l")
+				for _, e := range c04JSONLeaves(decoded, nil) {
+					b.WriteString(" " + jsonQuote(e))
+				}
+				b.WriteString(")")
+			} else {
+				b.WriteString("(o " + jsonQuote(fmt.Sprintf("jsonb-status-%d", v.Status)) + ")")
+			}
+		case map[string]any:
+			b.WriteString("(l")
+			for _, e := range c04JSONLeaves(v, nil) {
+				b.WriteString(" " + jsonQuote(e))
+			}
+			b.WriteString(")")
 		default:
 			b.WriteString("(o " + jsonQuote(fmt.Sprintf("%T:%v", v, v)) + ")")
 		}
@@ -363,6 +409,33 @@ func c04Params(p map[string]any) string {
 	}
 	b.WriteString(")")
 	return b.String()
+}
+
+// c04JSONLeaves lists the keys and string leaves of a decoded JSON value in a canonical order (object members by the
+// order of their VALUES' rendering is not stable under a renamed key, so objects are walked by sorted key but the key
+// itself is emitted next to its value; the templates use one hostile key or hostile values, never both).
+func c04JSONLeaves(v any, out []string) []string {
+	switch t := v.(type) {
+	case map[string]any:
+		keys := make([]string, 0, len(t))
+		for k := range t {
+			keys = append(keys, k)
+		}
+		sort.Strings(keys)
+		for _, k := range keys {
+			out = append(out, "key:"+k)
+			out = c04JSONLeaves(t[k], out)
+		}
+	case []any:
+		for _, e := range t {
+			out = c04JSONLeaves(e, out)
+		}
+	case string:
+		out = append(out, "str:"+t)
+	default:
+		out = append(out, fmt.Sprintf("%T:%v", t, t))
+	}
+	return out
 }
 
 // c04Translate runs the pg driver's text path: ParseCypher(NewContext) -> Translate -> Translated, then pgx's
@@ -465,6 +538,14 @@ func (r *c04Runner) Step(t []string, raw string) string {
 	case "param":
 		hres, _ = c04Translate(tmpl.Query, c04Mapper(""), map[string]any{"pv": s}, false)
 		bres, _ = c04Translate(tmpl.Query, c04Mapper(""), map[string]any{"pv": c04Benign}, false)
+		fc = "(skip)"
+	case "parammap":
+		hres, _ = c04Translate(tmpl.Query, c04Mapper(""), map[string]any{"pv": map[string]any{"k": s, "inner": map[string]any{"x": s}, "l": []any{s, "zz"}}}, false)
+		bres, _ = c04Translate(tmpl.Query, c04Mapper(""), map[string]any{"pv": map[string]any{"k": c04Benign, "inner": map[string]any{"x": c04Benign}, "l": []any{c04Benign, "zz"}}}, false)
+		fc = "(skip)"
+	case "parammapkey":
+		hres, _ = c04Translate(tmpl.Query, c04Mapper(""), map[string]any{"pv": map[string]any{s: "v"}}, false)
+		bres, _ = c04Translate(tmpl.Query, c04Mapper(""), map[string]any{"pv": map[string]any{c04Benign: "v"}}, false)
 		fc = "(skip)"
 	case "paramlist":
 		hres, _ = c04Translate(tmpl.Query, c04Mapper(""), map[string]any{"pv": []string{s, "zz"}}, false)
@@ -574,6 +655,11 @@ func (r *c04qRunner) Step(t []string, raw string) string {
 	if err != nil {
 		pgq = "ERR"
 	}
+	// formatIdentifier through the exported formatter entry point
+	ident, err := format.SyntaxNode(pgsql.Identifier(s))
+	if err != nil {
+		ident = "ERR"
+	}
 	enc := cypher.NewStringLiteral(s).Value.(string)
 	key := cypher.UnescapePropertyKeyName(s)
 	bt := "`" + strings.ReplaceAll(s, "`", "``") + "`"
@@ -606,5 +692,5 @@ func (r *c04qRunner) Step(t []string, raw string) string {
 	if strings.ContainsRune(s, 0) {
 		rt = 0
 	}
-	return fmt.Sprintf("pgq=%s enc=%s key=%s keyrt=%s dec=%s rt=%d", hx(pgq), hx(enc), hx(key), hx(keyrt), dec, rt)
+	return fmt.Sprintf("pgq=%s ident=%s enc=%s key=%s keyrt=%s dec=%s rt=%d", hx(pgq), hx(ident), hx(enc), hx(key), hx(keyrt), dec, rt)
 }
